@@ -536,6 +536,14 @@ def run_cases(name, cases_iter, chunk=200, deadline=None, log=print):
 
 
 def replay(rec):
+    if rec["check_fn"] in ("roundtrip_state", "readonly_state"):
+        from . import io_checks
+        c = rec["case"]
+        if rec["check_fn"] == "roundtrip_state":
+            _n, v = io_checks.roundtrip_state((c["world"], c["seed"], c["history"], [c["format"]]))
+        else:
+            _n, v = io_checks.readonly_state((c["world"], c["seed"], c["history"]))
+        return sorted({x["signature"] for x in v})
     fn = get_fn(rec["check_fn"])
     case = _tuplify(rec["case"])
     return sorted({v["signature"] for v in fn(case)})
